@@ -28,6 +28,13 @@ use sync::{atomic::AtomicBool, shared::Shared, waker_slot::WakerSlot};
 #[derive(Debug)]
 struct Inner<T> {
     fd: T,
+    notify: Shared<Notify>,
+}
+
+/// Lives in its own allocation so that a handle can look at it *after* it has
+/// released its reference to [`Inner`].
+#[derive(Debug)]
+struct Notify {
     // whether there is a future waiting
     waits: AtomicBool,
     waker: WakerSlot,
@@ -38,7 +45,7 @@ impl<T> RefUnwindSafe for Inner<T> {}
 /// A shared fd. It is passed to the operations to make sure the fd won't be
 /// closed before the operations complete.
 #[derive(Debug)]
-pub struct SharedFd<T>(Shared<Inner<T>>);
+pub struct SharedFd<T>(ManuallyDrop<Shared<Inner<T>>>);
 
 impl<T: AsFd> SharedFd<T> {
     /// Create the shared fd from an owned fd.
@@ -53,23 +60,31 @@ impl<T> SharedFd<T> {
     /// # Safety
     /// * T should own the fd.
     pub unsafe fn new_unchecked(fd: T) -> Self {
-        Self(Shared::new(Inner {
+        Self::from_shared(Shared::new(Inner {
             fd,
-            waits: AtomicBool::new(false),
-            waker: WakerSlot::new(),
+            notify: Shared::new(Notify {
+                waits: AtomicBool::new(false),
+                waker: WakerSlot::new(),
+            }),
         }))
+    }
+
+    fn from_shared(inner: Shared<Inner<T>>) -> Self {
+        Self(ManuallyDrop::new(inner))
     }
 
     fn into_inner(self) -> Shared<Inner<T>> {
         let this = ManuallyDrop::new(self);
         // SAFETY: `this` is not dropped here.
-        unsafe { ptr::read(&this.0) }
+        unsafe { ptr::read(&*this.0) }
     }
 
     /// Try to take the inner owned fd.
     pub fn try_unwrap(self) -> Result<T, Self> {
         let inner = self.into_inner();
-        Shared::try_unwrap(inner).map(|t| t.fd).map_err(|i| Self(i))
+        Shared::try_unwrap(inner)
+            .map(|t| t.fd)
+            .map_err(Self::from_shared)
     }
 
     /// Wait and take the inner owned fd.
@@ -77,7 +92,7 @@ impl<T> SharedFd<T> {
         let inner = self.into_inner();
 
         async move {
-            if !inner.waits.swap(true, Ordering::AcqRel) {
+            if !inner.notify.waits.swap(true, Ordering::AcqRel) {
                 let mut inner = Some(inner);
                 poll_fn(move |cx| {
                     let i = inner.take().unwrap();
@@ -86,7 +101,7 @@ impl<T> SharedFd<T> {
                         Err(this) => this,
                     };
 
-                    this.waker.register(cx.waker());
+                    this.notify.waker.register(cx.waker());
 
                     match Shared::try_unwrap(this) {
                         Ok(fd) => Poll::Ready(Some(fd.fd)),
@@ -98,6 +113,9 @@ impl<T> SharedFd<T> {
                 })
                 .await
             } else {
+                // Somebody else is already waiting to close: let go the way a plain
+                // drop does, so that the waiter is told.
+                drop(Self::from_shared(inner));
                 None
             }
         }
@@ -106,9 +124,14 @@ impl<T> SharedFd<T> {
 
 impl<T> Drop for SharedFd<T> {
     fn drop(&mut self) {
+        let notify = self.0.notify.clone();
+        // Release our reference *before* waking: a closer that is woken (or is polling
+        // concurrently) must be able to observe that we are gone.
+        // SAFETY: `self.0` is never used again.
+        unsafe { ManuallyDrop::drop(&mut self.0) };
         // It's OK to wake multiple times.
-        if Shared::strong_count(&self.0) == 2 && self.0.waits.load(Ordering::Acquire) {
-            self.0.waker.wake()
+        if notify.waits.load(Ordering::Acquire) {
+            notify.waker.wake()
         }
     }
 }
@@ -148,7 +171,7 @@ impl<T: FromRawFd> FromRawFd for SharedFd<T> {
 
 impl<T> Clone for SharedFd<T> {
     fn clone(&self) -> Self {
-        Self(self.0.clone())
+        Self::from_shared(Shared::clone(&self.0))
     }
 }
 
